@@ -4,7 +4,7 @@
 
 // In earlier versions denoted by 'x'
 inline double CulhamGeometry::Fx(const double& r, const double& theta, const double& sin_theta, const double& cos_theta) const {
-    const double cos_two_theta = 1.0 - sin_theta * sin_theta;
+    const double cos_two_theta = 1.0 - 2.0 * sin_theta * sin_theta;
     return (r/Rmax) * cos_theta + Delta((r/Rmax)) - E((r/Rmax)) * cos_theta - P((r/Rmax)) * cos_theta + T((r/Rmax)) * cos_two_theta + 5.0;
 }
 
@@ -17,7 +17,7 @@ inline double CulhamGeometry::Fy(const double& r, const double& theta, const dou
 
 // In earlier versions denoted by 'Jrr'
 inline double CulhamGeometry::dFx_dr(const double& r, const double& theta, const double& sin_theta, const double& cos_theta) const {
-    const double cos_two_theta = 1.0 - sin_theta * sin_theta;
+    const double cos_two_theta = 1.0 - 2.0 * sin_theta * sin_theta;
     return (Delta_prime((r/Rmax)) - E_prime((r/Rmax)) * cos_theta + T_prime((r/Rmax)) * cos_two_theta - dP((r/Rmax)) * cos_theta + cos_theta)/Rmax;
 }
 
@@ -35,7 +35,7 @@ inline double CulhamGeometry::dFx_dt(const double& r, const double& theta, const
 
 // In earlier versions denoted by 'Jtt'
 inline double CulhamGeometry::dFy_dt(const double& r, const double& theta, const double& sin_theta, const double& cos_theta) const {
-    const double cos_two_theta = 1.0 - sin_theta * sin_theta;
+    const double cos_two_theta = 1.0 - 2.0 * sin_theta * sin_theta;
     return (r/Rmax) * cos_theta - E((r/Rmax)) * cos_theta - P((r/Rmax)) * cos_theta - 2.0 * T((r/Rmax)) * cos_two_theta;
 }
 
